@@ -1,7 +1,7 @@
 (* C06 — filters run container, service, route, in order, each once, per request. *)
 From Model Require Import Str Sexp Http Template Table Curly DetectRoute Jsr311 Router Dispatch.
 From Spec Require Import DispatchSpec.
-From Proofs Require Import DispatchProofs ServeProofs.
+From Proofs Require Import DispatchProofs ServeProofs WrapperProofs.
 
 (* The chain (filter.go ProcessFilter), for ANY list of filter scripts that pass control on
    at most once and any target: it terminates, and the structural events it appends are
@@ -58,9 +58,33 @@ Proof. exact dispatch_sees. Qed.
 Print Assumptions C06_attributes.
 
 Example C06_example :
-  let f (id : string) pass := {| f_id := L id; f_pre := []; f_pass := pass; f_post := []; f_fresh := false; f_mw := 0 |} in
+  let f (id : string) pass := {| f_id := L id; f_pre := []; f_pass := pass; f_post := []; f_fresh := false; f_mw := 0; f_wrap := false |} in
   chain_events [f "c0"%string true; f "s0"%string true; f "r0"%string false; f "r1"%string true] [L "H:1"]
   = [L "pre:c0"; L "pre:s0"; L "pre:r0"; L "post:r0"; L "post:s0"; L "post:c0"]
   /\ chain_events [f "c0"%string true; f "s0"%string true] [L "H:1"]
   = [L "pre:c0"; L "pre:s0"; L "H:1"; L "post:s0"; L "post:c0"].
 Proof. split; reflexivity. Qed.
+
+(* the response a filter passes on is the one later stages write to (model): a filter that passes on a Response around an
+   upper-casing writer — the route function's bytes and its entity come out upper-cased and indented (a new wrapper
+   starts with the pretty-print default, whatever the outer one was switched to), the wrapping filter's own later bytes
+   do not, and the outer switch is still off afterwards *)
+Example C06_wrapped_response_example :
+  let wrapf := {| f_id := L "w"; f_pre := [APretty false]; f_pass := true; f_post := [AWrite (L "<tail>"); AEntity (L "c") (L "p")];
+                  f_fresh := false; f_mw := 0; f_wrap := true |} in
+  let r := run_chain [wrapf] (run_actions [AWrite (L "<body>"); AEntity (L "compact") (L "pretty")]) (st0 []) in
+  st_raw (state_of r) = [L "<BODY>"; L "PRETTY"; L "<tail>"; L "c"] /\ st_upper (state_of r) = 0 /\ st_pretty (state_of r) = false.
+Proof. vm_compute. repeat split; reflexivity. Qed.
+
+(* "the request/response pair a filter passes on are the ones later filters and the handler receive", the response
+   half: a filter may pass on a Response around a writer of its own (the model's wrapping filters put an upper-casing
+   writer in between).  That wrapper is in force for exactly what follows in the chain: whatever wrapping filters a
+   chain contains, when it returns normally the stack of wrappers is the one it was entered with — every filter
+   finishes on its own response. *)
+Definition C06_wrapper_scope_statement : Prop :=
+  forall (fs : list fscript) (target : rstate -> res) (s s' : rstate),
+    (forall s0 s1, target s0 = Done s1 -> st_upper s1 = st_upper s0) ->
+    run_chain fs target s = Done s' -> st_upper s' = st_upper s.
+Theorem C06_wrapper_scope : C06_wrapper_scope_statement.
+Proof. exact chain_restores_wrapper. Qed.
+Print Assumptions C06_wrapper_scope.
